@@ -205,15 +205,20 @@ Record vertail := MkVT { vt_ver : bytes; vt_suf : bytes; vt_rev : bytes; vt_glob
    optional PMS suffixes, optional -r revision, optional star, end of text -- every part is
    deterministic: what follows a greedy part can never start with a character that part
    accepts *)
+Definition take_letter (r : bytes) : bytes * bytes :=
+  if is_lower (peek r) then ([peek r], tl r) else ([], r).
+Definition take_rev (r : bytes) : bytes * bytes :=
+  if is 45 (peek r) && is 114 (peek1 r) && is_digit (peek2 r)
+  then let '(d, r') := span is_digit (tl (tl r)) in (peek1 r :: d, r') else ([], r).
+Definition take_glob (r : bytes) : bool * bytes :=
+  if is 42 (peek r) then (true, tl r) else (false, r).
 Definition ver_tail (s : bytes) : option vertail :=
   if negb (is_digit (peek s)) then None else
   let '(nums, r1) := scan_nums s in
-  let '(letter, r2) := if is_lower (peek r1) then ([peek r1], tl r1) else ([], r1) in
+  let '(letter, r2) := take_letter r1 in
   let '(suf, r3) := suf_walk O false r2 in
-  let '(rev, r4) :=
-    if is 45 (peek r3) && is 114 (peek1 r3) && is_digit (peek2 r3)
-    then let '(d, r) := span is_digit (tl (tl r3)) in (peek1 r3 :: d, r) else ([], r3) in
-  let '(glob, r5) := if is 42 (peek r4) then (true, tl r4) else (false, r4) in
+  let '(rev, r4) := take_rev r3 in
+  let '(glob, r5) := take_glob r4 in
   if isnil r5 then Some (MkVT (nums ++ letter) suf rev glob) else None.
 
 (* pkgVerRE = ^(.*?)-(...)$ : the lazy prefix ends at the leftmost hyphen from which the
